@@ -56,6 +56,9 @@ func realMain(argv []string) int {
 			path, _ = filepath.Abs(path)
 		}
 		return sim.ReplayMain(path)
+	case "shrink":
+		secs, _ := strconv.Atoi(os.Args[3])
+		return sim.ShrinkMain(os.Args[2], secs)
 	case "dettest":
 		p := sim.Registry[os.Args[2]]
 		n, _ := strconv.Atoi(os.Args[4])
